@@ -76,6 +76,7 @@ class Schema:
         self.fields = {}
         self.pkt = d.get('pkt', False)
         self.defaults = d.get('defaults', {})
+        self.extclass = d.get('extclass')     # record of a class outside the repository (e.g. scapy.packet.Raw)
 
 
 class FuncSpec:
